@@ -287,6 +287,20 @@ def run_case(case: dict) -> dict:
                     out["first"] = v1
                 v2, _ = compare_document(str(p2), m2, r, "pair:second document")
                 out["second"] = v2
+                # the functions of the first model must still be the first document's, also for tools that look
+                # up their source (symbolic conversion / code generation read source files)
+                if variant != "reread":
+                    try:
+                        from mxlpy.meta import generate_mxlpy_code
+
+                        ns: dict = {}
+                        exec(generate_mxlpy_code(m1), ns)  # noqa: S102
+                        rb = ns["create_model"]()
+                        a, b = m1.get_right_hand_side(), rb.get_right_hand_side()
+                        if any(not core.close(b.get(k, float("nan")), a[k], 1e-9) for k in a.index if a[k] == a[k]):
+                            out["first"] = [*out.get("first", []), core.viol("source of the first model's functions resolves to another document", None, original=a.to_dict(), from_source=b.to_dict())]
+                    except ValueError:
+                        pass  # untranslatable function: generation refused
                 return out
 
             outf = str(work / "session.pkl")
